@@ -5,8 +5,8 @@ import WfProofs.EngineTelemetry
 The resumed runner: `workflow.run(ctx=Context.from_dict(to_serialized(replayed state)))`
 = `Runner.init cfg (roundtrip cfg st) now none timeout`.
 
-* serialisation forgets exactly what replay at another clock gets differently
-  (`first_attempt_at` of in-progress invocations): `roundtrip_sim`;
+* serialisation keeps agreement up to `first_attempt_at` (what replay at another clock gets
+  differently): `roundtrip_sim` (in `EngineErase`);
 * `rewind_in_progress` keeps, per step, the multiset of queued + in-progress invocations, the
   buffers and the waiters, never raises, and emits a `runWorker` for every invocation it puts in
   progress;
@@ -18,23 +18,6 @@ set_option linter.unusedVariables false
 set_option linter.unusedSimpArgs false
 
 namespace Engine
-
-/-! ### serialisation -/
-
-theorem serStep_sim {a b : StepState} (h : SimSS a b) : serStep a = serStep b := by
-  have hev : a.inProg.map (·.ev) = b.inProg.map (·.ev) := by
-    have := congrArg (List.map (·.ev)) h.inProg
-    simpa [List.map_map, Function.comp_def, eraseIP] using this
-  simp [serStep, h.queue, h.collected, h.waiters, hev]
-
-theorem roundtrip_sim (cfg : Cfg) {a b : State} (h : SimSt a b) : roundtrip cfg a = roundtrip cfg b := by
-  have : ser cfg a = ser cfg b := by
-    simp only [ser, h.running]
-    congr 1
-    apply List.map_congr_left
-    intro s _
-    rw [serStep_sim (h.workers s)]
-  simp [roundtrip, this]
 
 /-! ### the empty state -/
 
